@@ -115,6 +115,11 @@ def worker_main(check_id, infile, outfile):
     env.setup()
     mod = importlib.import_module("checks." + check_id.lower())
     cases = json.load(open(infile))
+    # every worker gets a directory of its own: driver runs write samples_raw.dat / rdm1_afqmc.npz into the current directory, and the
+    # workers of one check share the parent's scratch directory (two concurrent driver cases would overwrite each other's files)
+    infile, outfile = os.path.abspath(infile), os.path.abspath(outfile)
+    own = tempfile.mkdtemp(prefix="worker_", dir=os.getcwd())
+    os.chdir(own)
     out = []
     t0 = time.time()
     for case in cases:
@@ -268,7 +273,16 @@ def run_check(mod, tier, seed, replay=None):
         env.setup()
         case = json.load(open(replay))
         case = case.get("case", case)
-        res = mod.run_case(case)
+        cwd_ = os.getcwd()
+        scratch_ = tempfile.mkdtemp(prefix="verif_replay_")
+        os.chdir(scratch_)
+        try:
+            res = mod.run_case(case)
+        finally:
+            os.chdir(cwd_)
+            import shutil as _sh
+
+            _sh.rmtree(scratch_, ignore_errors=True)
         res["case"] = case
         results, problems = [_jsonable(res)], []
         print(json.dumps(results[0]["events"], indent=1)[:6000])
